@@ -50,6 +50,24 @@ func genBurnHistory(r *RNG, nBlocks int) []string {
 				end := now/1_000_000_000 + int64(pick(r, []int{3, 8, 100000}))
 				add("M vesting.Create %s %s %s %d", toks(addr(i)), toks(burn), toks(feeDenom)+":"+pick(r, []string{"500", "1"}), end)
 				vested = true
+			case k < 7:
+				// a multi-send whose outputs add up to the input: part to the burn address, part to an ordinary account
+				// (and sometimes not adding up, or without outputs); one denomination per leg so that the SDK's
+				// Coins.IsEqual never compares different denomination names (it panics there: cosmos-sdk issue, not ours)
+				d := pick(r, []string{feeDenom, "ubtc"})
+				x, y := 1+r.Intn(500), r.Intn(40)
+				total := x + y
+				if r.Chance(12) {
+					total++ // input != sum of outputs
+				}
+				switch {
+				case r.Chance(8):
+					add("M bank.MultiSend %s %s", toks(addr(i)), toks(d)+":"+fmt.Sprint(total))
+				case y == 0:
+					add("M bank.MultiSend %s %s %s %s", toks(addr(i)), toks(d)+":"+fmt.Sprint(total), toks(burn), toks(d)+":"+fmt.Sprint(x))
+				default:
+					add("M bank.MultiSend %s %s %s %s %s %s", toks(addr(i)), toks(d)+":"+fmt.Sprint(total), toks(burn), toks(d)+":"+fmt.Sprint(x), toks(addr(r.Intn(4))), toks(d)+":"+fmt.Sprint(y))
+				}
 			case k < 8:
 				add("M bank.Send %s %s %s", toks(addr(i)), toks(addr(r.Intn(4))), coinsOf())
 			default:
